@@ -198,7 +198,7 @@ def render(doc, fmt) -> bytes:
         return {"xlsx": wx.write_xlsx, "ods": odf.write_ods}[fmt](doc)
     if k == "pages":
         if fmt == "pdf":
-            return misc.write_pdf(doc["pages"], doc.get("props"), images=doc.get("pdf_images"))
+            return misc.write_pdf(doc["pages"], doc.get("props"), images=doc.get("pdf_images"), rotate=True)
         if fmt == "rtf":
             return misc.write_rtf({"pages": [[["p", [["r", i] for i in ln]] for ln in pg] for pg in doc["pages"]]})
         if fmt == "epub":
@@ -286,6 +286,18 @@ def observe(job):
             units.append(up)
         full = r.get_full_text()
         out["joinok"] = bool(full == "\n".join(u["raw"] for u in units).strip())
+        # the same law under every boolean option both accessors share (pptx: include_image_captions)
+        import inspect
+        try:
+            pf = inspect.signature(r.get_full_text).parameters
+            pu = inspect.signature(r.iterate_units).parameters
+            opts = [k for k in pf if k in pu and pf[k].default is False]
+        except (TypeError, ValueError):
+            opts = []
+        for k in opts:
+            f2 = r.get_full_text(**{k: True})
+            j2 = "\n".join(u.get_text() for u in r.iterate_units(**{k: True})).strip()
+            out["joinok"] = out["joinok"] and bool(f2 == j2)
         for u in units:
             del u["raw"]
         out["units"] = units
@@ -329,7 +341,7 @@ def rich_doc(fmt, seed=0):
             {"shapes": [["title", [["r", 1]]], ["body", [[["r", 2]], [["r", 3]]]],
                         ["tbl", [[[[["r", 4]]], [[["r", 5]]]], [[[["r", 6]]], [[["r", 7]]]]]]],
              "notes": [["r", 8]] if fmt != "odg" else [],
-             "images": [{"target": pre + "i1.png", "part": part + "i1.png", "data": img1}]},
+             "images": [{"target": pre + "i1.png", "part": part + "i1.png", "data": img1, "descr": "alt " + word(20)}]},
             {"shapes": [["text", [[["r", 9]]]]], "notes": [], "comments": [10] if fmt == "pptx" else [],
              "images": [{"target": pre + "i2.jpeg", "part": part + "i2.jpeg", "data": img2}]}]}
     if fmt == "xls":
